@@ -179,6 +179,17 @@ def run(tier, seed):
                 for z in sizes + [n + 1, n + 7]:
                     ops.append("enc s=0 syn=%s buf=%d" % (s, z))
                     checks.append(("buf", z))
+                if s in ("DER", "OER", "UPER"):
+                    # the per-syntax entry points der_/oer_/uper_encode_to_buffer write through the same kind of bounded callback
+                    for z in sorted(set([0, 1, max(0, n - 1), n, n + 1, n + 7] + ([rng.randrange(n)] if n > 2 else []))):
+                        ops.append("enc s=0 syn=%s buf=%d legacy=1" % (s, z))
+                        checks.append(("lbuf", z))
+                if s == "UPER":
+                    ops.append("enc s=0 syn=UPER lnew=1")
+                    checks.append(("lnew", 0))
+                    for k in (1, 2, 3):
+                        ops += ["oom k=%d" % k, "enc s=0 syn=UPER lnew=1"]
+                        checks.append(("lnew-oom", k))
                 if not valid and desc == "constraint-violating":
                     # walker-damaged structures have no defined abstract value: only safety and rc/errno discipline are demanded
                     ops += ["setreg r=1 in=%s" % out, "dec s=1 t=%s syn=%s inreg=1" % (tname, DEC_OF[s]), "enc s=1 syn=%s" % s, "free s=1"]
@@ -231,6 +242,33 @@ def run(tier, seed):
                     elif arg >= n and e.get("out") != out:
                         chk.violation(dict(key, symptom="to_buffer-content-differs"),
                                       "asn_encode_to_buffer(%s) of %s with a %d-byte buffer produced different bytes than the callback encoder" % (s, tname, arg), replay)
+                elif what == "lbuf":
+                    # judged: no write beyond the buffer (ASan, exact-size heap block); a success has the size and the bytes of
+                    # the callback encoder (uper_encode_to_buffer counts bits and writes nothing for a zero-bit value)
+                    nb = int(e.get("nbytes", -1))
+                    if rc is not None and rc >= 0 and not (s == "UPER" and rc == 0):
+                        if nb != n or nb > arg or e.get("out") != out:
+                            chk.violation(dict(key, symptom="legacy-to_buffer-success-differs"),
+                                          "%s_encode_to_buffer of %s with a %d-byte buffer returned %s (%d bytes) where the callback encoder gives %d bytes%s" % (
+                                              s.lower(), tname, arg, rc, nb, n, "" if e.get("out") == out else ", other content"), replay)
+                    elif rc is not None and rc < 0 and arg >= n and valid:
+                        chk.violation(dict(key, symptom="legacy-to_buffer-fails-with-room"),
+                                      "%s_encode_to_buffer of %s fails (rc=%s errno=%s) with a %d-byte buffer, the encoding has %d bytes" % (
+                                          s.lower(), tname, rc, e.get("errno"), arg, n), replay)
+                elif what in ("lnew", "lnew-oom"):
+                    fired = what == "lnew-oom" and e.get("oomfired") == "1"
+                    if rc is not None and rc >= 0:
+                        if rc != n or e.get("out") != out or e.get("bufnull") == "1":
+                            chk.violation(dict(key, symptom="legacy-new_buffer-wrong"),
+                                          "uper_encode_to_new_buffer of %s returned %s (callback encoder: %d bytes)%s" % (
+                                              tname, rc, n, "" if e.get("out") == out else ", other content"), replay)
+                    elif not fired and valid:
+                        chk.violation(dict(key, symptom="legacy-new_buffer-fails"),
+                                      "uper_encode_to_new_buffer of %s fails (rc=%s errno=%s) where uper encoding succeeds" % (tname, rc, e.get("errno")), replay)
+                    if int(e.get("dlive", 0) or 0) != (1 if rc is not None and rc >= 0 else 0):
+                        chk.violation(dict(key, symptom="legacy-new_buffer-allocation-accounting"),
+                                      "uper_encode_to_new_buffer of %s (rc=%s%s) returned with %s allocation(s) outstanding" % (
+                                          tname, rc, ", allocation %d failing" % arg if fired else "", e.get("dlive")), replay)
                 elif what == "newbuf":
                     if rc is not None and rc >= 0:
                         if e.get("bufnull") == "1" or e.get("out") != out or e.get("nul") != "1":
